@@ -28,7 +28,7 @@ fn spec_cmp(a: &Revision, b: &Revision) -> Ordering {
 pub fn records(n: usize) -> Vec<(Revision, Option<Revision>)> {
     let mut recs: Vec<(Revision, Option<Revision>)> = Vec::new();
     for i in 0..n {
-        let k = sym::choose(2 + 3 * i);
+        let k = sym::choose(2 + 4 * i);
         if k == 0 {
             recs.push((Revision::new(1u32, digest(), None), None));
         } else if k == 1 {
@@ -38,12 +38,15 @@ pub fn records(n: usize) -> Vec<(Revision, Option<Revision>)> {
             let ghost = if sym::any_bool() { base } else { Revision::new_updated(digest(), &base) };
             recs.push((Revision::new_updated(digest(), &ghost), Some(ghost)));
         } else {
-            let j = (k - 2) / 3;
+            let j = (k - 2) / 4;
             let p = recs[j].0.clone();
-            let r = match (k - 2) % 3 {
+            let r = match (k - 2) % 4 {
                 0 => Revision::new_updated(digest(), &p),
                 1 => Revision::new_deleted(&p),
-                _ => Revision::new_resolved(&p),
+                2 => Revision::new_resolved(&p),
+                // a long history compressed into one record: the index passes 10, where the numeric and the textual
+                // order of the identifiers disagree
+                _ => Revision::new(p.index() + 9, digest(), Some(&p)),
             };
             recs.push((r, Some(p)));
         }
